@@ -5,6 +5,8 @@ from harness.common import coq_list
 from harness.c12 import EQB, REQ, NAMES, ms_term, tail
 
 LEAF_GARBAGE = "leaf-garbage"
+LEAF_PROTOCOL_ERRORS = ("BooleanUnslicer only accepts", "NoneUnslicer does not accept", "UnicodeUnslicer only accepts",
+                        "already received a string")
 
 
 def run(ctx):
@@ -55,9 +57,13 @@ def paths(vs, p=()):
             yield from paths(b, p + (i, 1))
 
 
+def step(node, i):
+    return node[1][i] if isinstance(node[0], str) else node[i]       # value node, or a [key, value] pair of a dict
+
+
 def get(vs, p):
     for i in p:
-        vs = vs[1][i]
+        vs = step(vs, i)
     return vs
 
 
@@ -67,8 +73,11 @@ def put(vs, p, new):
     vs = copy.deepcopy(vs)
     cur = vs
     for i in p[:-1]:
-        cur = cur[1][i]
-    cur[1][p[-1]] = new
+        cur = step(cur, i)
+    if isinstance(cur[0], str):
+        cur[1][p[-1]] = new
+    else:
+        cur[p[-1]] = new
     return vs
 
 
@@ -175,7 +184,8 @@ def classify_dead(ctx, w, family, case, what):
     if any("invalid token type" in e for e in errs):
         ctx.fail("oracle/strict-taster-drops-connection", "a wrong token type under a strictTaster constraint dropped the whole "
                  "connection instead of failing one call: %s; receive error %r" % (str(case)[:600], errs), replay=case)
-    elif family == LEAF_GARBAGE and errs and all(e.startswith("BananaError") for e in errs):
+    elif errs and all(e.startswith("BananaError") and any(m in e for m in LEAF_PROTOCOL_ERRORS) for e in errs):
+        # structurally malformed leaf sequence (not a schema question): a protocol error by design
         ctx.hist("protocol-error-on-malformed-leaf", errs[0][:60])
     else:
         ctx.fail("oracle/connection-dropped-by-nonconforming-%s" % what, "a non-conforming %s made the connection unusable "
@@ -268,14 +278,14 @@ def call_cases(ctx, S, E):
         for j in range(nargs):
             cs = S.gen_cs(rng, rng.choice([1, 2, 2]), opener_choice=False)
             argspec.append((NAMES[j], cs, j > 0 and rng.random() < 0.3))
-        vals = [ascii_only(S.canon_vs(S.gen_value(cs, rng))) for _, cs, _ in argspec]
+        vals = [S.canon_vs(ascii_only(S.gen_value(cs, rng))) for _, cs, _ in argspec]
         npos = rng.randint(0, nargs)
         family = rng.choice(["none", "value", "value", "value", "wire", "wire", "missing", "extra", "duplicate", "unknown", "ref"])
         j = rng.randrange(nargs)
         if family == "value":
             for _ in range(5):
                 try:
-                    vals[j] = ascii_only(S.canon_vs(mutate_value(S, vals[j], rng)))
+                    vals[j] = S.canon_vs(ascii_only(mutate_value(S, vals[j], rng)))
                     break
                 except TypeError:          # a mutation made a set element / dict key unhashable: try another
                     continue
@@ -357,12 +367,12 @@ def answer_cases(ctx, S, E):
         recs.append(run_answer(ctx, S, E, tag, "fixed", cs, ws))
     for i in range(ctx.n(230, 4000)):
         cs = S.gen_cs(rng, rng.choice([0, 1, 2, 2]), opener_choice=False)
-        v = ascii_only(S.canon_vs(S.gen_value(cs, rng)))
+        v = S.canon_vs(ascii_only(S.gen_value(cs, rng)))
         family = rng.choice(["none", "value", "value", "wire", "wire"])
         if family == "value":
             for _ in range(5):
                 try:
-                    v = ascii_only(S.canon_vs(mutate_value(S, v, rng)))
+                    v = S.canon_vs(ascii_only(mutate_value(S, v, rng)))
                     break
                 except TypeError:
                     continue
